@@ -86,3 +86,25 @@ def rule(fx, scope):
             ok = covered(f, hb, L.natural_loops(f), bi)
             rows.append((f, t[6], ok, "call of the list compiler %s" % p.split("::")[-1]))
     return hs, rows
+
+
+def hoister_forms(fx, scope, decl_call="::compile_function_declaration", stmt_enum="ast::Statement"):
+    """[(hoister fn, statement variants from whose arm the function-declaration compiler is reached)]: `function f(){}` and `export function f(){}` both
+    declare a hoisted function"""
+    import mir as M
+    out = []
+    for p in sorted(hoisters(fx, scope)):
+        f = fx.fns[p]
+        calls = [bi for bi, t in f.calls() if (t[1].get("d") or "").endswith(decl_call)]
+        if not calls:
+            continue
+        forms = set()
+        for bi, en, pl, arms, other, rest in M.enum_switches(fx, f):
+            if not str(en).endswith(stmt_enum.split("::")[-1]):
+                continue
+            for v, tgt in arms.items():
+                reach = f.reachable_from(tgt, stop={bi}) | {tgt}
+                if any(c in reach for c in calls):
+                    forms.add(v)
+        out.append((f, forms))
+    return out
